@@ -377,7 +377,7 @@ impl TypedScenario for C20Timer {
     }
     fn budget(&self, tier: Tier) -> usize {
         match tier {
-            Tier::Quick => 2500,
+            Tier::Quick => 8000,
             Tier::Thorough => 1_000_000,
         }
     }
@@ -440,7 +440,7 @@ impl TypedScenario for C20Range {
     }
     fn budget(&self, tier: Tier) -> usize {
         RANGE_MS.len() * 2 + match tier {
-            Tier::Quick => 200,
+            Tier::Quick => 1000,
             Tier::Thorough => 100_000,
         }
     }
@@ -562,7 +562,7 @@ impl TypedScenario for C20Mig {
     }
     fn budget(&self, tier: Tier) -> usize {
         match tier {
-            Tier::Quick => 600,
+            Tier::Quick => 2000,
             Tier::Thorough => 250_000,
         }
     }
@@ -818,7 +818,7 @@ impl TypedScenario for C20Reload {
     }
     fn budget(&self, tier: Tier) -> usize {
         match tier {
-            Tier::Quick => 300,
+            Tier::Quick => 1000,
             Tier::Thorough => 100_000,
         }
     }
